@@ -63,7 +63,8 @@ PRIMES = [2.5, 3.25, 5.125, 7.5, 11.25, 13.125, 17.5, 19.25, 23.125, 29.5,
           31.25, 37.125, 41.5, 43.25]
 NAMINGS = ["u", "own", "dup", "auto", "short", "dup0", "dup1"]
 NAMINGS_SHORT = ["u", "dup", "short"]
-WRAPS = ["b", "mul", "addq", "addb", "cplx", "sqrt", "dict", "mulS", "sqrtN"]
+WRAPS = ["b", "mul", "addq", "addb", "cplx", "sqrt", "dict", "mulS", "sqrtN",
+         "xr"]
 MAXVIOL = 3                  # violation records kept per check per case
 
 # --------------------------------------------------------------------------
@@ -173,7 +174,7 @@ def _sites(sname):
 def _wrap_ok(cls, w):
     if w in ("cplx",):
         return cls == "n"
-    if w == "dict":
+    if w in ("dict", "xr"):
         return cls in ("n", "ch")
     return True
 
@@ -433,7 +434,9 @@ def _prior_numbers(g):
     lo = 0.25 + 1.5 * g
     return {"kind": g % 3, "lo": lo, "hi": lo + 1.25 + 0.125 * (g % 5),
             "mu": lo + 0.5, "sd": 0.125 + 0.0625 * (g % 4),
-            "guess": lo + 0.375 if g % 2 else None}
+            # odd groups: an interior guess; multiples of 6: a guess exactly
+            # on the lower bound; the rest: the default guess
+            "guess": (lo + 0.375 if g % 2 else (lo if g % 6 == 0 else None))}
 
 
 def _mk_prior(g, name):
@@ -577,6 +580,11 @@ def _build(p):
             e = {"red": P, "green": default}
             f = (lambda v, k=k, d=default: {"red": v[k], "green": d})
             u = {k}
+        elif w == "xr":
+            # a labelled array over the channels, labels NOT in sorted order
+            e = _xr_channels([P, default])
+            f = (lambda v, k=k, d=default: _xr_channels([v[k], d]))
+            u = {k}
         else:
             raise ValueError(w)
         exprs[s], b.f[s], b.uses[s] = e, f, u
@@ -677,8 +685,24 @@ def _flat_forward(res, out):
         out["alpha"] = res["scaling"]
 
 
+def _xr_channels(vals):
+    import xarray as xr
+    return xr.DataArray(np.array(list(vals), dtype=object),
+                        dims=["illumination"],
+                        coords={"illumination": ["red", "green"]})
+
+
 def _same(a, b):
     """equal and of the same type, recursively"""
+    import xarray as xr
+    if isinstance(a, xr.DataArray) or isinstance(b, xr.DataArray):
+        return (isinstance(a, xr.DataArray) and isinstance(b, xr.DataArray)
+                and a.dims == b.dims and
+                all(list(a[d].values) == list(b[d].values) for d in a.dims)
+                and _same([x.item() if hasattr(x, "item") else x
+                           for x in a.values.ravel().tolist()],
+                          [x.item() if hasattr(x, "item") else x
+                           for x in b.values.ravel().tolist()]))
     if isinstance(a, dict) or isinstance(b, dict):
         return (isinstance(a, dict) and isinstance(b, dict) and
                 list(a) == list(b) and
